@@ -93,7 +93,8 @@ fn rate_independent(mode: GameMode, ar: f32, od: f32) {
     let (ar_wm, od_wm): (bool, bool) = (kani::any(), kani::any());
     let base = BeatmapAttributesBuilder::new().mode(mode, kani::any()).mods(bits).ar(ar, ar_wm).od(od, od_wm);
     let w1 = base.clone().clock_rate(any_rate()).hit_windows();
-    let w2 = base.clock_rate(any_rate()).hit_windows();
+    // the second rate is the neutral one: a with_mods value must give the windows it gives at rate 1
+    let w2 = base.clock_rate(1.0).hit_windows();
     if od_wm {
         assert!(w1.od_great.to_bits() == w2.od_great.to_bits(), "C17 OD given with_mods=true: great window independent of the clock rate");
         assert!(w1.od_ok.map(f64::to_bits) == w2.od_ok.map(f64::to_bits), "C17 OD given with_mods=true: ok window independent of the clock rate");
@@ -106,7 +107,7 @@ fn rate_independent(mode: GameMode, ar: f32, od: f32) {
 
 //@ obl: id=U13.with_mods_ignores_rate harness=u13_with_mods_ignores_rate props=C17 tier=quick kind=bounded
 //@ fns: BeatmapAttributesBuilder::hit_windows
-//@ bound: bounded: one concrete AR/OD pair (3.5, 8.25) in the quick tier, a grid in the thorough tier (symbolic values make the solver compare two copies of the same float circuit, which does not finish); osu/catch/taiko, all legacy mod bits, two arbitrary clock rates in [0.01,100], the two with_mods flags independent and symbolic
+//@ bound: bounded: one concrete AR/OD pair (3.5, 8.25) in the quick tier, a grid in the thorough tier (symbolic values make the solver compare two copies of the same float circuit, which does not finish); osu/catch/taiko, all legacy mod bits, an arbitrary clock rate in [0.01,100] compared with rate 1, the two with_mods flags independent and symbolic
 //@ clause: an OD given with with_mods=true yields hit windows that do not depend on the clock rate (bit-identical for any two rates) whatever the AR flag is, and likewise the AR window for an AR given with with_mods=true - this is what makes the value come back unchanged from build()
 #[kani::proof]
 #[kani::unwind(3)]
